@@ -134,6 +134,8 @@ pure slot(s Store, d Int) Bytes = slotkey(rpos(id(s), d, N(s)))
 // the ring position inside the ring, a non-negative epoch. Epochs below 2^32 remain an input assumption.
 invariant InvCounters [C08] = store.has("snapshotCount") && store.has("snapshotCurrent") && store.has("snapshotEpoch")
         && 1 <= N(store) && N(store) <= 255 && 0 <= id(store) && id(store) < N(store) && 0 <= C(store)
+// no ring slot at or beyond the count: a map that left the history cannot come back when the count grows again
+invariant InvNoSlotBeyond [C08] = forall j Int {store.opt(slotkey(j))} :: N(store) <= j && j <= 255 ==> !store.has(slotkey(j))
 // no per-epoch node list outside the window of the last N epochs
 pred NoStale(s Store) = forall e Int, x Bytes {s.opt(pkey(e) ++ x)} :: 1 <= e && e < 4294967296 && (e <= C(s) - N(s) || e > C(s)) ==> !s.has(pkey(e) ++ x)
 
@@ -221,6 +223,7 @@ func UpdateSnapshotCount(count)
   ensures [C08] forall d Int :: 0 <= d && d < count && d < old(N(store)) ==> store.opt(slot(store, d)) == old(store).opt(slot(old(store), d))
   // nothing older than the new window leaks
   ensures [C08] NoStale(store)
+  ensures [C08] forall j Int {store.opt(slotkey(j))} :: count <= j && j <= 255 ==> !store.has(slotkey(j))
   // the node lists of the epochs inside the new window are untouched
   ensures [C08] forall e Int, x Bytes {store.opt(pkey(e) ++ x)} :: C(store) - count < e && e <= C(store) && 0 <= e ==> store.opt(pkey(e) ++ x) == old(store).opt(pkey(e) ++ x)
   loop 0
@@ -228,7 +231,7 @@ func UpdateSnapshotCount(count)
     invariant forall j Int {store.opt(slotkey(j))} :: k < j && j <= count - 1 ==> store.opt(slotkey(j)) == entry(store).opt(slotkey(j - diff))
     invariant forall x Bytes {store.opt(x)} :: !(isslot(x) && k < x[9] && x[9] <= count - 1) ==> store.opt(x) == entry(store).opt(x)
   loop 1
-    invariant start <= k
+    invariant start <= k && k <= count
     invariant forall j Int {store.opt(slotkey(j))} :: start <= j && j < k ==> store.opt(slotkey(j)) == entry(store).opt(slotkey(j + step))
     invariant forall x Bytes {store.opt(x)} :: !(isslot(x) && start <= x[9] && x[9] < k) ==> store.opt(x) == entry(store).opt(x)
   loop 2
@@ -615,6 +618,10 @@ func _deploy(data, isUpdate)
   // ... no per-epoch node list (base of InvNoStale of module tick; a contract is deployed with empty storage)
   ensures [C08,C16] !isUpdate && (forall x Bytes {old(store).opt(x)} :: !old(store).has(x)) ==>
         forall e Int, x Bytes {store.opt("p" ++ fbe(e) ++ x)} :: 0 <= e && e < 4294967296 ==> !store.has("p" ++ fbe(e) ++ x)
+  // ... no ring slot beyond the ten (base of InvNoSlotBeyond of module ring), and an update leaves the slots beyond the count alone
+  ensures [C08,C16] !isUpdate && (forall x Bytes {old(store).opt(x)} :: !old(store).has(x)) ==>
+        forall t Int {store.opt(slotkey(t))} :: 10 <= t && t <= 255 ==> !store.has(slotkey(t))
+  ensures [C08,C16] isUpdate ==> forall t Int {store.opt(slotkey(t))} :: N(old(store)) <= t && t <= 255 ==> store.opt(slotkey(t)) == old(store).opt(slotkey(t))
   // ... and ten empty snapshots
   ensures [C08,C16] !isUpdate ==> forall t Int {store.opt(slotkey(t))} :: 0 <= t && t < 10 ==> store.has(slotkey(t)) && len(deser_L_Node(store.get(slotkey(t)))) == 0
   loop 0
@@ -631,6 +638,6 @@ func _deploy(data, isUpdate)
     invariant forall x Bytes {store.opt(x)} :: !prefix("config", x) ==> store.opt(x) == entry(store).opt(x)
   loop 4
     invariant 0 <= i && i <= 10
-    invariant forall x Bytes {store.opt(x)} :: !isslot(x) ==> store.opt(x) == entry(store).opt(x)
+    invariant forall x Bytes {store.opt(x)} :: !(isslot(x) && x[9] < i) ==> store.opt(x) == entry(store).opt(x)
     invariant forall t Int {store.opt(slotkey(t))} :: 0 <= t && t < i ==> store.has(slotkey(t)) && len(deser_L_Node(store.get(slotkey(t)))) == 0
 @*/
